@@ -84,12 +84,14 @@ RecvEnd(dir, i, senderDone) ==
 \* the client's call returns (code, msg, res)
 \*   oneway: returns once the request is written, nothing of the handler is visible
 \*   otherwise: OK only with the result of ITS handler run that returned OK; a non-OK code and message are those of
-\*   its handler run; a panic, a malformed reply or a lost connection is some non-OK status
+\*   its handler run; a panic, a malformed reply or a lost connection is some non-OK status; a call made with a
+\*   deadline (kind "deadline") may also end with the caller's own timeout, whatever its handler does
 CallEnd(i, out) ==
     /\ kind[i] # "none" /\ cend[i] = NoOut
     /\ IF kind[i] = "oneway" THEN (out.code = "ok" => out.res = 0) /\ (out.code # "ok" => failed)
        ELSE IF out.code = "ok" THEN hret[i].code = "ok" /\ hret[i].res = out.res
        ELSE \/ failed
+            \/ (kind[i] = "deadline" /\ out.code = "timeout")      \* the caller's own deadline expired first
             \/ hret[i] = PanicOut
             \/ (hret[i].code \notin {"none", "panic"} /\ hret[i].code = out.code /\ hret[i].msg = out.msg)
     /\ cend' = [cend EXCEPT ![i] = out]
